@@ -106,6 +106,9 @@ def skipZeroIndices (t : Tracker) : Tracker :=
 def moveToNextIndex (t : Tracker) : Tracker :=
   skipZeroIndices { t with index := t.index + 1, iface := t.iface.tail, sizes := t.sizes.tail }
 
+/-- the `MPI_Irecv(&(iter->fixedSize), …)` of `sendFixedSize` completed with value `f` -/
+def setFixedSize (t : Tracker) (f : Nat) : Tracker := { t with fixedSize := f }
+
 def increment (t : Tracker) (n : Nat) : Tracker :=
   { t with index := t.index + n, iface := t.iface.drop n, sizes := t.sizes.drop n }
 
@@ -315,7 +318,7 @@ def communicatePairVar (repaired : Bool) (B : Nat) (h : Handle α) (sendIdx recv
 def communicatePairFixed (repaired : Bool) (B : Nat) (h : Handle α) (fSend : Nat) (sendIdx recvIdx : List Nat) :
     PairRun α :=
   let s := sendAll h (sendIdx.length + 1) true (Tracker.mk' 0 sendIdx fSend) (MessageBuffer.new B)
-  let recvT : Tracker := { Tracker.mk' 0 recvIdx 0 with fixedSize := fSend }
+  let recvT : Tracker := (Tracker.mk' 0 recvIdx 0).setFixedSize fSend
   let recvT := recvT.skipZeroIndices
   let r : RecvRun (List (Call α)) :=
     if recvT.finished then ⟨[], 0, s.messages.length, false, false, recvT⟩
@@ -456,5 +459,57 @@ def Pair.step {σ} (c : PairCfg α σ) (s : Pair α σ) : Action → Option (Pai
 /-- both loops of this neighbour relation have counted down and nothing is in flight -/
 def Pair.final {σ} (s : Pair α σ) : Bool :=
   !s.sendOpen && !s.recvOpen && s.chan.isEmpty && s.st.finished && s.rt.finished
+
+/-- executing a schedule (list of actions) of one neighbour relation; `none` if an action is not enabled -/
+def Pair.exec {σ} (c : PairCfg α σ) : Pair α σ → List Action → Option (Pair α σ)
+  | s, [] => some s
+  | s, a :: as => (Pair.step c s a).bind fun s' => Pair.exec c s' as
+
+/-! ### the composed system of one phase: all directed neighbour relations of all ranks
+
+Per neighbour the C++ code keeps its own tracker, buffer and request; `checkAndContinue` runs the body modelled by
+`Pair.step` for whichever requests `MPI_Testsome` reports, in whatever order.  So the composed system is the free
+interleaving of the per-neighbour machines: a schedule is a list of (component, action). -/
+
+structure Comp (α σ : Type) where
+  cfg : PairCfg α σ
+  state : Pair α σ
+
+def sysStep {σ} (ss : List (Comp α σ)) (i : Nat) (a : Action) : Option (List (Comp α σ)) :=
+  match ss[i]? with
+  | none => none
+  | some x => (Pair.step x.cfg x.state a).map fun s' => ss.set i { x with state := s' }
+
+def sysExec {σ} : List (Comp α σ) → List (Nat × Action) → Option (List (Comp α σ))
+  | ss, [] => some ss
+  | ss, ia :: rest => (sysStep ss ia.1 ia.2).bind fun ss' => sysExec ss' rest
+
+/-- one directed neighbour relation of a data phase: the sender's handle and send list, `f` = fixed size (0 = variable
+    size), the receiver's list -/
+structure PairSpec (α : Type) where
+  h : Handle α
+  f : Nat
+  sendIdx : List Nat
+  recvIdx : List Nat
+
+def dataCfg (p : PairSpec α) : PairCfg α (List (Call α)) := ⟨true, p.f == 0, p.h, unpackEntries⟩
+
+/-- the receive tracker when the data phase starts: variable size: sizes known from `communicateSizes`;
+    fixed size: `fixedSize` received from the peer -/
+def PairSpec.recvTracker (p : PairSpec α) : Tracker :=
+  if p.f = 0 then { Tracker.mk' 0 p.recvIdx 0 true with sizes := p.sendIdx.map p.h.size }
+  else (Tracker.mk' 0 p.recvIdx 0).setFixedSize p.f
+
+/-- state of one neighbour relation after the initial `setupRequests` of both sides (for fixed-size handles the
+    first receive is really posted a little later, when the scalar size has arrived — a pure delay) -/
+def dataInit (B : Nat) (p : PairSpec α) : Comp α (List (Call α)) :=
+  ⟨dataCfg p, Pair.init (dataCfg p) (Tracker.mk' 0 p.sendIdx p.f) p.recvTracker B []⟩
+
+def sizeCfg (p : PairSpec α) : PairCfg Nat (List Nat) := ⟨true, false, sizeHandle p.h, unpackSizes⟩
+
+/-- the same neighbour relation in `communicateSizes` -/
+def sizeInit (B : Nat) (p : PairSpec α) : Comp Nat (List Nat) :=
+  ⟨sizeCfg p, Pair.init (sizeCfg p) (Tracker.mk' 0 p.sendIdx 1) (Tracker.mk' 0 p.recvIdx 1) B
+     (List.replicate p.recvIdx.length 0)⟩
 
 end DV.C06
